@@ -20,7 +20,9 @@ PROP = 'C10'
 def eval_program(arg) -> dict:
     seed, stream, scratch, tier = arg
     common.import_dznpy()
-    prog, case, rng = progrun.make_program(PROP, seed, stream, scratch, stream % 3 == 1)
+    prog, case, rng = progrun.make_program(
+        PROP, seed, stream, scratch, stream % 3 == 1,
+        mc_position=['first', 'middle', 'last'][(stream // 3) % 3])
     if stream % 2 == 0:
         # make sure multi-threaded requires ports are covered in every run
         prog.enc['requires'] = {'sts': 'NONE', 'mts': 'ALL'}
